@@ -1,4 +1,5 @@
 import OcppProps.CDSim
+import OcppProps.SFine
 import OcppModel.Endpoint
 import OcppModel.Expected
 import OcppGen.Skeletons
@@ -748,4 +749,20 @@ theorem skel_cdDispatchNext : Gen.Skeletons.cdDispatchNext = Ocpp.Expected.cdDis
 theorem skel_sdDispatchNext : Gen.Skeletons.sdDispatchNext = Ocpp.Expected.sdDispatchNext := by decide
 theorem skel_sdDeleteClient : Gen.Skeletons.sdDeleteClient = Ocpp.Expected.sdDeleteClient := by decide
 
-end C01
+/-! ### Below quiescence, server dispatcher: an accepted request is in the queue of the live connection
+(`OcppProps/SFine.lean`, every interleaving) -/
+
+/-- a request is only ever pushed into the queue registered for the client at that moment (since /repo 602795e) -/
+theorem sfine_pushed_into_current {s s' : Ocpp.ServerFine.St} (h : SFine.Reach s) (hk : s.sendLock = true) (id qi : Nat)
+    (hs : Ocpp.ServerFine.step s (.push id qi) = some s') : s.cur = some qi := SFine.pushed_into_current h hk id qi hs
+
+/-- before: a sender racing a disconnection + reconnection pushed into the old connection's queue - accepted, never
+    written, never concluded (kernel-evaluated interleaving; replay `s-send-during-reconnect` on the code) -/
+theorem sfine_old_push_into_old_queue :
+    ((Ocpp.ServerFine.runL { sendLock := false } [.connect, .sget, .disc, .lstep, .lstep, .connect, .push 1 0, .notify,
+        .takeReq, .pstep, .pstep, .pstep, .pstep, .takeReq, .pstep, .pstep, .pstep, .pstep]).map (fun s =>
+      decide (s.pump = .sel ∧ s.cur = some 1 ∧ Ocpp.ServerFine.getQ s.qs 0 = [1] ∧ Ocpp.ServerFine.getQ s.qs 1 = [] ∧ s.wire = [] ∧
+        s.pend = none ∧ s.reqs = 0 ∧ s.mid = 0 ∧ s.hold = [] ∧ s.ready = .empty ∧ s.sigw = 0 ∧ s.reader = .idle ∧ s.link = .idle))) =
+      some true := SFine.old_push_into_old_queue
+
+example : Ocpp.ServerFine.runL {} [.connect, .sget, .disc] = none := by decide
